@@ -123,9 +123,16 @@ func rulesC10(c *Ctx) {
 			nS++
 			guards := g.GuardsAt(g.VertexOf(w))
 			rhs := as.Rhs[0]
+			// the selection depends on the relation (and, per kind, on one more test) and on nothing else: a further test on
+			// a flag of the connection would send some messages to the wrong stream or nowhere
+			nl, what := g.semanticLeaves(g.VertexOf(w))
+			exact := func(kind string, want int) {
+				c.Check(nl == want, "Write:s="+kind+":not-narrowed", wr, w, "%d tests guard this selection (found %d: %s)", want, nl, what)
+			}
 			if m, k, isIx := indexOf(rhs); isIx && wr.IsField(m, streams) {
 				if s, isC := wr.ConstString(k); isC && s == "" {
 					c.Check(hasAtom(guards, func(a Atom) bool { return relValid(a, false) }), "Write:s=standalone", wr, w, "the standalone stream is selected only when the message is not related to a request (guards: %s)", atomsString(guards))
+					exact("standalone", 1)
 					continue
 				}
 				// s = c.streams[streamID] with streamID, ok := c.requestStreams[relatedRequest]
@@ -141,6 +148,7 @@ func rulesC10(c *Ctx) {
 					}
 				}
 				c.Check(okSrc && hasAtom(guards, func(a Atom) bool { return relValid(a, true) }) && wr.heldLocal(w)[lkConn], "Write:s=request-stream", wr, w, "a related message is routed through requestStreams[relatedRequest] under c.mu (guards: %s)", atomsString(guards))
+				exact("request-stream", 2)
 				continue
 			}
 			// s = stream inside `for _, stream := range c.streams { if stream.isListen {...} }`
@@ -148,6 +156,7 @@ func rulesC10(c *Ctx) {
 			if rs != nil && wr.IsField(rs.X, streams) && wr.ObjOf(rhs) == wr.ObjOf(rs.Value) {
 				isListen := c.Field(pM, "stream", "isListen")
 				c.Check(hasAtom(guards, func(a Atom) bool { return relValid(a, false) }) && hasAtom(guards, func(a Atom) bool { return a.Val && wr.IsField(a.E, isListen) }), "Write:s=listen-stream", wr, w, "the listen stream is selected only for unrelated messages (guards: %s)", atomsString(guards))
+				exact("listen-stream", 2)
 				continue
 			}
 			c.Fail("Write:s=?", wr, w, "unrecognised stream selection %s", exprStr(rhs))
